@@ -1,26 +1,55 @@
-/* skinny_calloc on integers: the vector harnesses replace it by a contract model (its pointer rounding makes every later
- * offset symbolic), so the real function is decided here against that contract, for every address calloc could return */
+/* skinny_calloc against its contract, on integers.  The vector harnesses replace it by a model (its pointer rounding makes
+ * every later offset symbolic), so the real function is decided here for every address the allocator could return, with
+ * each of its allocation requests allowed to fail.  Contract (what its callers rely on): on success the result is 32-byte
+ * aligned, [result, result+size) lies inside a live block obtained from the allocator, *base_ptr is that block's start
+ * (what the caller must pass to free), every other block it obtained has been released; on failure NULL and nothing live. */
 #include "vh.h"
 #include <stdlib.h>
-uint64_t sym_addr; uint8_t sym_fail; size_t req_n, req_size;
-static void *vh_calloc(size_t n, size_t size) { req_n = n; req_size = size; return (sym_fail & 1) ? (void *)0 : (void *)(uintptr_t)sym_addr; }
+#define NA 3
+uint64_t sym_addr[NA]; uint8_t sym_fail[NA];
+static uint64_t blk_len[NA]; static int blk_live[NA]; static unsigned n_req, n_badfree;
+static void *vh_calloc(size_t n, size_t size)
+{
+    if (n_req >= NA) return 0;
+    unsigned k = n_req++;
+    if (sym_fail[k] & 1) return 0;
+    blk_len[k] = (uint64_t)n * size; blk_live[k] = 1;
+    return (void *)(uintptr_t)sym_addr[k];
+}
+static void vh_free(void *p)
+{
+    if (!p) return;
+    for (unsigned k = 0; k < NA; k++) if (blk_live[k] && (uintptr_t)p == sym_addr[k]) { blk_live[k] = 0; return; }
+    n_badfree++;
+}
 #define calloc vh_calloc
+#define free vh_free
 #include "skinny-internal.c"
 #undef calloc
+#undef free
 void harness(void)
 {
     HARNESS_BEGIN();
-    SYM_VAL(sym_addr); SYM_VAL(sym_fail);
-    ASSUME(sym_addr != 0 && sym_addr <= UINT64_MAX - 4096);        /* a real block does not wrap around the address space */
-    void *base = (void *)0x1; size_t want = 624;
+    SYM_U64A(sym_addr); SYM_U8A(sym_fail);
+    /* distinct, non-null, 16-byte aligned blocks (what malloc guarantees on this ABI) that do not wrap or overlap */
+    for (int k = 0; k < NA; k++) { ASSUME(sym_addr[k] != 0 && (sym_addr[k] & 15) == 0 && sym_addr[k] < (1ULL << 47)); }
+    ASSUME(sym_addr[0] + 4096 <= sym_addr[1] && sym_addr[1] + 4096 <= sym_addr[2]);
+    void *base = (void *)0x1; size_t want = SIZE;
     void *p = skinny_calloc(want, &base);
-    if (sym_fail & 1) {
-        CHECK(p == 0, "allocation failure is propagated as NULL");
+    unsigned live = 0; for (int k = 0; k < NA; k++) live += (unsigned)blk_live[k];
+    CHECK(n_badfree == 0, "nothing is released that the allocator did not hand out");
+    if (!p) {
+        CHECK(live == 0, "when the allocation fails, nothing obtained on the way is leaked");
     } else {
-        CHECK(req_n * req_size >= want + 31, "the block requested from calloc leaves room for the alignment slack");
-        CHECK(base == (void *)(uintptr_t)sym_addr, "the pointer to pass to free() is what calloc returned");
+        CHECK(live == 1, "exactly one block stays with the caller");
         CHECK(((uintptr_t)p & 31) == 0, "the returned pointer is 32-byte aligned");
-        CHECK((uintptr_t)p >= sym_addr && (uintptr_t)p - sym_addr <= 31, "the returned pointer lies inside the slack at the start of the block");
+        int inside = 0, based = 0;
+        for (int k = 0; k < NA; k++) if (blk_live[k]) {
+            if ((uintptr_t)p >= sym_addr[k] && (uintptr_t)p + want <= sym_addr[k] + blk_len[k]) inside = 1;
+            if (base == (void *)(uintptr_t)sym_addr[k]) based = 1;
+        }
+        CHECK(inside, "the whole context fits inside the block that was obtained");
+        CHECK(based, "the pointer stored for free() is the start of that block");
     }
     WITNESS_POINT();
 }
